@@ -572,7 +572,8 @@ def main(tier):
     cov = {
         "evaluations": len(results), "distinct_nontrivial": len(sigs),
         "rule": f"a run = one history of 300-500 operations drawn from a pool of {len(pool)} descriptors (einx ops of all families, adapters, solve_*/matches, factories, 25% corrupted calls, "
-                "equal-but-not-identical aliases, with-contexts none / numpy.einsum / numpy.numpylike / numpy inside numpy.einsum), executed back to back in one interpreter; every third "
+                "16 stratified kinds of equal-but-not-identical or confusable aliases (2 / 2.0 / True / numpy scalars / 0-d arrays, list / tuple / array sizes, -1 vs -2, 0.0 vs -0.0, array / scalar / factory of three "
+                "signature classes, dtype, spacing, keyword order), with-contexts up to depth 4 incl. a backend repeated inside another), executed back to back in one interpreter; every third "
                 "history carries injected sympy/exec/numpy/inspect failures and asynchronous aborts on ~22% of its operations. Oracle: the same descriptor in a pristine fork of a zygote "
                 "that never called einx. distinct_nontrivial = distinct (descriptor, class of what preceded it) pairs, class in {cold, hit-identical, hit-after-alias} x "
                 "{after failing call, after injected fault} x with-depth",
